@@ -88,3 +88,7 @@
   (and (= kl (et_keybytes t)) (et_known t)
     (ite (= t tid.crypto.Des3CbcSha1Kd) (and (bvsge dl #x0000000000000008) (= (bvurem dl #x0000000000000008) #x0000000000000000))
     (ite (= t tid.crypto.RC4HMAC) true (bvsge dl #x0000000000000010)))))
+
+;; Keyed checksum of an encryption type over data with a key and key usage: the RFC-defined value
+;; (RFC 3961 5.3 / RFC 8009 5 / RFC 4757 4). Uninterpreted here; C07 connects it to the HMAC composition.
+(declare-fun et_cksum (Int BSeq (_ BitVec 32) BSeq) BSeq)
